@@ -89,9 +89,12 @@ def diagonal(diagonal, transpose, to_tensor, argname_axis1="axis1", argname_axis
     return inner
 
 
-def elementwise(op, to_tensor=None):
+def elementwise(op, to_tensor=None, num_inputs=None):
     @use_name_of(op)
     def inner(*xs):
+        if num_inputs is not None and len(xs) != num_inputs:
+            # A further positional argument of a numpy ufunc is its 'out' array: never forward a wrong number of tensors
+            raise ValueError(f"The operation expects {num_inputs} input tensor{'s' if num_inputs != 1 else ''}, but {len(xs)} were given.")
         xs = to_tensor(*xs)
         return op(*xs)
 
@@ -329,27 +332,27 @@ class ops:
         self.stop_gradient = lambda x: x
 
         self.add = adapter.classical_from_numpy.elementwise(_associative_binary_to_nary(np.add), to_tensor=to_tensor_forward_all)
-        self.subtract = adapter.classical_from_numpy.elementwise(np.subtract, to_tensor=to_tensor_forward_all)
+        self.subtract = adapter.classical_from_numpy.elementwise(np.subtract, to_tensor=to_tensor_forward_all, num_inputs=2)
         self.multiply = adapter.classical_from_numpy.elementwise(_associative_binary_to_nary(np.multiply), to_tensor=to_tensor_forward_all)
-        self.true_divide = adapter.classical_from_numpy.elementwise(np.true_divide, to_tensor=to_tensor_forward_all)
-        self.floor_divide = adapter.classical_from_numpy.elementwise(np.floor_divide, to_tensor=to_tensor_forward_all)
-        self.divide = adapter.classical_from_numpy.elementwise(np.divide, to_tensor=to_tensor_forward_all)
+        self.true_divide = adapter.classical_from_numpy.elementwise(np.true_divide, to_tensor=to_tensor_forward_all, num_inputs=2)
+        self.floor_divide = adapter.classical_from_numpy.elementwise(np.floor_divide, to_tensor=to_tensor_forward_all, num_inputs=2)
+        self.divide = adapter.classical_from_numpy.elementwise(np.divide, to_tensor=to_tensor_forward_all, num_inputs=2)
         self.logaddexp = adapter.classical_from_numpy.elementwise(_associative_binary_to_nary(np.logaddexp), to_tensor=to_tensor_forward_all)
         self.logical_and = adapter.classical_from_numpy.elementwise(_associative_binary_to_nary(np.logical_and), to_tensor=to_tensor_forward_all)
         self.logical_or = adapter.classical_from_numpy.elementwise(_associative_binary_to_nary(np.logical_or), to_tensor=to_tensor_forward_all)
-        self.where = adapter.classical_from_numpy.elementwise(np.where, to_tensor=to_tensor_forward_all)
+        self.where = adapter.classical_from_numpy.elementwise(np.where, to_tensor=to_tensor_forward_all, num_inputs=3)
         self.maximum = adapter.classical_from_numpy.elementwise(_associative_binary_to_nary(np.maximum), to_tensor=to_tensor_forward_all)
         self.minimum = adapter.classical_from_numpy.elementwise(_associative_binary_to_nary(np.minimum), to_tensor=to_tensor_forward_all)
-        self.less = adapter.classical_from_numpy.elementwise(np.less, to_tensor=to_tensor_forward_all)
-        self.less_equal = adapter.classical_from_numpy.elementwise(np.less_equal, to_tensor=to_tensor_forward_all)
-        self.greater = adapter.classical_from_numpy.elementwise(np.greater, to_tensor=to_tensor_forward_all)
-        self.greater_equal = adapter.classical_from_numpy.elementwise(np.greater_equal, to_tensor=to_tensor_forward_all)
-        self.equal = adapter.classical_from_numpy.elementwise(np.equal, to_tensor=to_tensor_forward_all)
-        self.not_equal = adapter.classical_from_numpy.elementwise(np.not_equal, to_tensor=to_tensor_forward_all)
-        self.exp = adapter.classical_from_numpy.elementwise(np.exp, to_tensor=to_tensor_forward_all)
-        self.log = adapter.classical_from_numpy.elementwise(np.log, to_tensor=to_tensor_forward_all)
-        self.negative = adapter.classical_from_numpy.elementwise(np.negative, to_tensor=to_tensor_forward_all)
-        self.divmod = adapter.classical_from_numpy.elementwise(np.divmod, to_tensor=to_tensor_forward_all)
+        self.less = adapter.classical_from_numpy.elementwise(np.less, to_tensor=to_tensor_forward_all, num_inputs=2)
+        self.less_equal = adapter.classical_from_numpy.elementwise(np.less_equal, to_tensor=to_tensor_forward_all, num_inputs=2)
+        self.greater = adapter.classical_from_numpy.elementwise(np.greater, to_tensor=to_tensor_forward_all, num_inputs=2)
+        self.greater_equal = adapter.classical_from_numpy.elementwise(np.greater_equal, to_tensor=to_tensor_forward_all, num_inputs=2)
+        self.equal = adapter.classical_from_numpy.elementwise(np.equal, to_tensor=to_tensor_forward_all, num_inputs=2)
+        self.not_equal = adapter.classical_from_numpy.elementwise(np.not_equal, to_tensor=to_tensor_forward_all, num_inputs=2)
+        self.exp = adapter.classical_from_numpy.elementwise(np.exp, to_tensor=to_tensor_forward_all, num_inputs=1)
+        self.log = adapter.classical_from_numpy.elementwise(np.log, to_tensor=to_tensor_forward_all, num_inputs=1)
+        self.negative = adapter.classical_from_numpy.elementwise(np.negative, to_tensor=to_tensor_forward_all, num_inputs=1)
+        self.divmod = adapter.classical_from_numpy.elementwise(np.divmod, to_tensor=to_tensor_forward_all, num_inputs=2)
 
         self.sum = adapter.classical_from_numpy.reduce(np.sum, to_tensor=to_tensor_forward_all)
         self.mean = adapter.classical_from_numpy.reduce(np.mean, to_tensor=to_tensor_forward_all)
